@@ -24,6 +24,7 @@ ASSUMPTIONS = [
 ]
 FLOORS = {"quick": {"evaluations": 2000, "decode_compared": 8000, "encode_compared": 2000},
           "thorough": {"evaluations": 60000, "decode_compared": 400000, "encode_compared": 60000}}
+ANCHORS = ['Message.dump', 'Message.load', 'Message._postprocess_single', 'dump_varint', 'Message.__setattr__', '_Timestamp.from_datetime']
 CONTRACTS = ["bytes"]
 
 
